@@ -147,7 +147,10 @@ def cases(draw, tier):
             step = dict(step, target="sib")
         hist.append(step)
     # a re-attachment of a not-yet-attached late listener is simply its first attachment
-    return {"spec": spec, "cfg": cfg, "history": hist, "sib_instance_cbs": draw(st.booleans()), "sib_late_as_ctor": draw(st.booleans())}
+    from .c16 import twin_case
+
+    return {"spec": spec, "cfg": cfg, "history": hist, "sib_instance_cbs": draw(st.booleans()), "sib_late_as_ctor": draw(st.booleans()),
+            "twin": draw(twin_case()) if draw(st.integers(0, 5)) == 0 else None}
 
 
 def strategy(tier):
@@ -159,4 +162,13 @@ def budget(tier):
 
 
 def run_case(case):
-    return play_case(case, P, PROPERTY)
+    out = play_case(case, P, PROPERTY)
+    if out["ok"] and case.get("twin"):
+        # a listener attached to a shallow copy (copy.copy) of a machine belongs to that copy alone
+        from .c16 import shallow_twin
+
+        bad, labels = shallow_twin(case, PROPERTY)
+        if bad is not None:
+            return bad
+        out["labels"] = sorted(set(out.get("labels", ())) | labels)
+    return out
